@@ -178,3 +178,25 @@ def structured_frozen(s):
                 out.append(set(grp[1:]))
                 out.append(set(grp[:-1]))
     return out
+
+
+# public read-only calls made on an object BEFORE a property's own query (scene setting: their answers are not judged there)
+PRECALLS = ["kappa", "dmax", "dmaxperm", "delta", "sigma", "omega", "omegaseq", "region", "scd", "linFCR 3", "linNCPR 2", "linSigma 5",
+            "linHydro 4", "linComp 3 -", "reduce 5 -", "cplx WF 20 - 3 1 3", "html", "phosseq", "kappaphos", "pi", "phq fcr 7/1",
+            "kappaX s000045,s000044 s00004b,s000052", "kappaX s000050,s000045,s000044,s00004b,s000052 -", "fcr", "countNeg", "seq"]
+
+
+def after_calls_cases(rng, n, own, minlen=8, maxlen=50):
+    """blocks `new 0 SEQ ; <other public calls> ; <the property's own queries>` on ONE object: half of them with every call of PRECALLS
+    (shuffled), half with a random few; only the own queries are judged (tag judge_from)"""
+    from .runner import Case
+    for k in range(n):
+        s = rand_seq(rng, rng.choice(["polyampholyte", "idp", "blocky", "polyampholyte"]), rng.randint(minlen, maxlen))
+        if not (any(c in "KR" for c in s) and any(c in "DE" for c in s)):
+            s = s[:-4] + "KEDR"
+        pre = list(PRECALLS)
+        rng.shuffle(pre)
+        if k % 2:
+            pre = pre[:rng.randint(1, 4)]
+        lines = ["new 0 " + s] + ["o 0 " + q for q in pre] + ["o 0 " + q for q in own]
+        yield Case(lines, {"kind": "after-other-calls", "judge_from": 1 + len(pre)})
